@@ -123,110 +123,110 @@ func checkC08(p *Prog, r *Report) {
 	}
 	var ffiT *strTable
 	visitChecks := func() bool {
-	cbFunc := func(v ssa.Value) *ssa.Function {
-		switch x := v.(type) {
-		case *ssa.Function:
-			return x
-		case *ssa.MakeClosure:
-			return x.Fn.(*ssa.Function)
-		}
-		return nil
-	}
-	pre, post := cbFunc(visit.Call.Args[1]), cbFunc(visit.Call.Args[2])
-	if pre == nil || post == nil {
-		r.Fail("R08b", "getFfi callbacks", instrPos(visit), "pre/post callbacks are not function literals", "")
-		return false
-	}
-	findTest := func(f *ssa.Function) *tableTest {
-		ts := p.tableTests(f)
-		if len(ts) == 0 {
+		cbFunc := func(v ssa.Value) *ssa.Function {
+			switch x := v.(type) {
+			case *ssa.Function:
+				return x
+			case *ssa.MakeClosure:
+				return x.Fn.(*ssa.Function)
+			}
 			return nil
 		}
-		return &ts[len(ts)-1]
-	}
-	preT, postT := findTest(pre), findTest(post)
-	if preT != nil {
-		ffiT = preT.Table
-	}
-	// pre-visit shape
-	{
-		ok, why := true, ""
-		if preT == nil {
-			ok, why = false, "pre-visit does not test membership in a constant table of FFI packages"
-		} else {
-			_, fld, okf := fieldOf(preT.Key)
-			if !okf || fld != "PkgPath" {
-				ok, why = false, "pre-visit looks up "+sk(preT.Key)+", expected the visited package's PkgPath"
-			}
-			nRet := 0
-			seenVals := map[bool]bool{}
-			ips, okp := p.ipathsKeeping(pre, keepTableFuncs(p, pre))
-			if !okp {
-				ok, why = false, "paths of the pre-visit callback could not be enumerated"
-			}
-			for _, ip := range ips {
-				if ip.Exit != "return" || len(ip.Ret) != 1 {
-					continue
-				}
-				nRet++
-				switch ip.Ret[0] {
-				case "true":
-					seenVals[true] = true
-					if !preT.holds(ip.Rels, false) {
-						ok, why = false, "pre-visit returns true (descend) without the fact that the package is not an FFI"
-					}
-				case "false":
-					seenVals[false] = true
-					if !preT.holds(ip.Rels, true) {
-						ok, why = false, "pre-visit returns false (prune) for a package that is not an FFI"
-					}
-				default:
-					// `return !isFfi`: the returned value is the negated membership itself
-					if ip.Ret[0] != "!"+preT.OkKey && ip.Ret[0] != "(!"+preT.OkKey+")" {
-						ok, why = false, "pre-visit returns a computed value ("+ip.Ret[0]+"): whether the walk descends must depend only on the FFI lookup"
-					} else {
-						seenVals[true], seenVals[false] = true, true
-					}
-				}
-			}
-			if (!seenVals[true] || !seenVals[false]) && ok {
-				ok, why = false, "pre-visit never prunes or never descends"
-			}
-			_ = nRet
+		pre, post := cbFunc(visit.Call.Args[1]), cbFunc(visit.Call.Args[2])
+		if pre == nil || post == nil {
+			r.Fail("R08b", "getFfi callbacks", instrPos(visit), "pre/post callbacks are not function literals", "")
+			return false
 		}
-		r.Check("R08b", "pre-visit prunes exactly at FFI packages", pre.Pos(), ok, why)
-	}
-	// post-visit shape
-	{
-		ok, why := true, ""
-		if postT == nil || postT.Table != ffiT {
-			ok, why = false, "post-visit does not look up the same FFI table"
-		} else {
-			_, fld, okf := fieldOf(postT.Key)
-			if !okf || fld != "PkgPath" {
-				ok, why = false, "post-visit looks up "+sk(postT.Key)
+		findTest := func(f *ssa.Function) *tableTest {
+			ts := p.tableTests(f)
+			if len(ts) == 0 {
+				return nil
 			}
-			rm := p.Rels(post)
-			nUpd := 0
-			p.instrs(post, func(b *ssa.BasicBlock, i int, in ssa.Instruction) {
-				if mu, isMu := in.(*ssa.MapUpdate); isMu {
-					nUpd++
-					rs := p.RelsAt(rm, mu)
-					if !postT.holds(rs, true) {
-						ok, why = false, "an FFI is recorded without the lookup having succeeded"
+			return &ts[len(ts)-1]
+		}
+		preT, postT := findTest(pre), findTest(post)
+		if preT != nil {
+			ffiT = preT.Table
+		}
+		// pre-visit shape
+		{
+			ok, why := true, ""
+			if preT == nil {
+				ok, why = false, "pre-visit does not test membership in a constant table of FFI packages"
+			} else {
+				_, fld, okf := fieldOf(preT.Key)
+				if !okf || fld != "PkgPath" {
+					ok, why = false, "pre-visit looks up "+sk(preT.Key)+", expected the visited package's PkgPath"
+				}
+				nRet := 0
+				seenVals := map[bool]bool{}
+				ips, okp := p.ipathsKeeping(pre, keepTableFuncs(p, pre))
+				if !okp {
+					ok, why = false, "paths of the pre-visit callback could not be enumerated"
+				}
+				for _, ip := range ips {
+					if ip.Exit != "return" || len(ip.Ret) != 1 {
+						continue
 					}
-					// recorded value is the looked-up FFI name
-					if sk(mu.Key) != postT.ValKey {
-						ok, why = false, "the recorded key is "+sk(mu.Key)+", not the FFI name found in the table"
+					nRet++
+					switch ip.Ret[0] {
+					case "true":
+						seenVals[true] = true
+						if !preT.holds(ip.Rels, false) {
+							ok, why = false, "pre-visit returns true (descend) without the fact that the package is not an FFI"
+						}
+					case "false":
+						seenVals[false] = true
+						if !preT.holds(ip.Rels, true) {
+							ok, why = false, "pre-visit returns false (prune) for a package that is not an FFI"
+						}
+					default:
+						// `return !isFfi`: the returned value is the negated membership itself
+						if ip.Ret[0] != "!"+preT.OkKey && ip.Ret[0] != "(!"+preT.OkKey+")" {
+							ok, why = false, "pre-visit returns a computed value ("+ip.Ret[0]+"): whether the walk descends must depend only on the FFI lookup"
+						} else {
+							seenVals[true], seenVals[false] = true, true
+						}
 					}
 				}
-			})
-			if nUpd != 1 && ok {
-				ok, why = false, fmt.Sprintf("%d recordings in post-visit", nUpd)
+				if (!seenVals[true] || !seenVals[false]) && ok {
+					ok, why = false, "pre-visit never prunes or never descends"
+				}
+				_ = nRet
 			}
+			r.Check("R08b", "pre-visit prunes exactly at FFI packages", pre.Pos(), ok, why)
 		}
-		r.Check("R08b", "post-visit records exactly the FFI packages", post.Pos(), ok, why)
-	}
+		// post-visit shape
+		{
+			ok, why := true, ""
+			if postT == nil || postT.Table != ffiT {
+				ok, why = false, "post-visit does not look up the same FFI table"
+			} else {
+				_, fld, okf := fieldOf(postT.Key)
+				if !okf || fld != "PkgPath" {
+					ok, why = false, "post-visit looks up "+sk(postT.Key)
+				}
+				rm := p.Rels(post)
+				nUpd := 0
+				p.instrs(post, func(b *ssa.BasicBlock, i int, in ssa.Instruction) {
+					if mu, isMu := in.(*ssa.MapUpdate); isMu {
+						nUpd++
+						rs := p.RelsAt(rm, mu)
+						if !postT.holds(rs, true) {
+							ok, why = false, "an FFI is recorded without the lookup having succeeded"
+						}
+						// recorded value is the looked-up FFI name
+						if sk(mu.Key) != postT.ValKey {
+							ok, why = false, "the recorded key is "+sk(mu.Key)+", not the FFI name found in the table"
+						}
+					}
+				})
+				if nUpd != 1 && ok {
+					ok, why = false, fmt.Sprintf("%d recordings in post-visit", nUpd)
+				}
+			}
+			r.Check("R08b", "post-visit records exactly the FFI packages", post.Pos(), ok, why)
+		}
 		return true
 	}
 	if visit != nil {
